@@ -97,6 +97,29 @@ def raw_cases():
                                ("arrow", "fs", "p->x = 9;"), ("starmember", "fs", "(*p).x = 9;")]
         for arg in [argi if fn == "fi" else args]
     ] + [
+        # const arrays: element type x dimensions x store form x right-hand side
+        c("const-array-%s-%dd-%s" % (ty, dims, sn),
+          "    const %s%s a = %s;\n    %s\n    println(a%s);" % (ty, "[2]" if dims == 1 else "[2][2]",
+                                                                   ("[%s, %s]" % (v1, v2)) if dims == 1 else ("[[%s, %s], [%s, %s]]" % (v1, v2, v2, v1)),
+                                                                   store % ("a[1]" if dims == 1 else "a[0][1]"), "[1]" if dims == 1 else "[0][1]"),
+          "error", "")
+        for (ty, v1, v2, rhss) in [("int", "1", "2", ["9"]), ("long", "1", "2", ["9"]), ("short", "1", "2", ["9"]),
+                                   ("double", "1.5", "2.5", ["9", "9.25"]), ("float", "1.5", "2.5", ["9", "9.25"]),
+                                   ("char", "'a'", "'b'", ["'z'"]), ("bool", "true", "false", ["true"]), ("string", '"a"', '"b"', ['"z"'])]
+        for dims in (1, 2)
+        for (sn, store) in [("assign-" + ("f" if "." in rhs else "i"), "%%s = %s;" % rhs) for rhs in rhss] +
+                           ([("addassign", "%s += 1;"), ("incr", "%s++;")] if ty in ("int", "long", "short", "double", "float") else []) +
+                           ([("addassign-f", "%s += 1.5;")] if ty in ("double", "float") else [])
+    ] + [
+        c("const-ref-param-member-write", "    P s = {1, 2};\n    f(s);\n    println(s.x);", "error", "", pre="void f(const P& r) { r.x = 9; }\n"),
+        c("const-ref-param-member-addassign", "    P s = {1, 2};\n    f(s);\n    println(s.x);", "error", "", pre="void f(const P& r) { r.x += 9; }\n"),
+        c("const-ref-param-nested-member-write", "    Q s;\n    s.v = 1;\n    s.in.x = 2;\n    f(s);\n    println(s.in.x);", "error", "",
+          pre="struct Q { int v; P in; };\nvoid f(const Q& r) { r.in.x = 9; }\n"),
+        c("const-ref-param-scalar-write", "    int d = 3;\n    f(d);\n    println(d);", "error", "", pre="void f(const int& r) { r = 9; }\n"),
+        c("const-ref-param-scalar-incr", "    int d = 3;\n    f(d);\n    println(d);", "error", "", pre="void f(const int& r) { r++; }\n"),
+        c("const-ref-param-of-const-struct", "    const P s = {1, 2};\n    f(s);\n    println(s.x);", "error", "", pre="void f(const P& r) { r.y = 9; }\n"),
+        c("const-ref-param-read", "    P s = {1, 2};\n    println(f(s));", "ok", "3\nEND\n", pre="int f(const P& r) { return r.x + r.y; }\n"),
+    ] + [
         c("const-float", "    const float x = 1.5;\n    x = 2.5;\n    println(x);", "error", ""),
         c("const-string", "    const string s = \"a\";\n    s = \"b\";\n    println(s);", "error", ""),
         c("const-struct-whole-assign", "    const P a = {1, 2};\n    P b = {3, 4};\n    a = b;\n    println(a.x);", "error", ""),
